@@ -272,7 +272,7 @@ func C10(r *eng.Run) {
 	if !CodecSanity(r) {
 		return
 	}
-	shapes := Shapes(r.Thorough())
+	shapes := Shapes(true)
 	t0 := time.Now()
 	// machine integers
 	r.Seq(func(w *eng.W) {
